@@ -17,7 +17,7 @@ RULE = ("random styles over 13 tri-state attributes x {unset, default, named, co
 ASSUMPTIONS = ["docs/source/appendix/colors.rst and docs/source/style.rst are the documentation oracle",
                "equality of colours is judged by (type, number, triplet), not by the Color.name string"]
 REQUIRED = ["mon.second_level", "mon.identity", "mon.assoc", "mon.right_bias", "mon.roundtrip_str", "mon.normalize",
-            "mon.eq_hash_pairs", "mon.dict_lookup", "mon.doc_color", "mon.doc_attr", "mon.route"]
+            "mon.eq_hash_pairs", "mon.dict_lookup", "mon.doc_color", "mon.doc_attr", "mon.route", "mon.fold_of_untouched_operands"]
 MIN_NONTRIVIAL = {"quick": 3000, "thorough": 100000}
 
 
